@@ -302,19 +302,81 @@ func NilFact(f Fact) (x ssa.Value, isNil bool, ok bool) {
 }
 
 // KnownNil reports whether facts establish v == nil (1), v != nil (-1) or nothing (0).
+// Besides direct nil tests it understands (a) aliases through spilled local variables
+// and (b) validity predicates: a call ok(err) to a function that returns true whenever
+// its argument is nil — on the false edge the argument is non-nil (`if !isValid(err)`).
 func KnownNil(facts []Fact, v ssa.Value) int {
+	same := func(x ssa.Value) bool {
+		if SameValue(x, v) {
+			return true
+		}
+		for _, a := range ValueAliases(v) {
+			if SameValue(a, x) {
+				return true
+			}
+		}
+		for _, a := range ValueAliases(x) {
+			if SameValue(a, v) {
+				return true
+			}
+		}
+		return false
+	}
 	for _, f := range facts {
-		if x, isNil, ok := NilFact(f); ok && SameValue(x, v) {
+		if x, isNil, ok := NilFact(f); ok && same(x) {
 			if isNil {
 				return 1
 			}
 			return -1
 		}
+		cv, taken := normCond(f.Cond, f.Taken)
+		if call, ok := cv.(*ssa.Call); ok && !taken {
+			if fn := StaticCallee(call.Common()); fn != nil && len(call.Call.Args) == 1 && same(call.Call.Args[0]) && nilImpliesTrue(fn) {
+				return -1
+			}
+		}
 	}
 	return 0
 }
 
-// SameValue: identical SSA value, or both are the same Extract index of the same tuple.
+var nilImpliesTrueCache = map[*ssa.Function]bool{}
+
+// nilImpliesTrue: fn(x) bool returns the constant true on every path where x == nil,
+// i.e. every return of a non-true value is dominated by x != nil.
+func nilImpliesTrue(fn *ssa.Function) bool {
+	if v, ok := nilImpliesTrueCache[fn]; ok {
+		return v
+	}
+	res := false
+	defer func() { nilImpliesTrueCache[fn] = res }()
+	if fn.Blocks == nil || len(fn.Params) != 1 || fn.Signature.Results().Len() != 1 {
+		return false
+	}
+	if b, ok := fn.Signature.Results().At(0).Type().Underlying().(*types.Basic); !ok || b.Kind() != types.Bool {
+		return false
+	}
+	prm := fn.Params[0]
+	for _, r := range Returns(fn) {
+		if c, ok := r.Results[0].(*ssa.Const); ok && c.Value != nil && c.Value.Kind() == constant.Bool && constant.BoolVal(c.Value) {
+			continue
+		}
+		nonNil := false
+		for _, f := range FactsAt(r.Block()) {
+			if x, isNil, ok := NilFact(f); ok && x == ssa.Value(prm) && !isNil {
+				nonNil = true
+			}
+		}
+		if !nonNil {
+			return false
+		}
+	}
+	res = true
+	return true
+}
+
+// SameValue: identical SSA value, the same Extract index of the same tuple, or two
+// loads of the same local variable (Alloc) with no store to it on any path between the
+// two loads (variables captured by a deferred closure are spilled to memory by go/ssa).
 func SameValue(a, b ssa.Value) bool {
 	if a == b {
 		return true
@@ -324,7 +386,87 @@ func SameValue(a, b ssa.Value) bool {
 	if ok1 && ok2 && ea.Tuple == eb.Tuple && ea.Index == eb.Index {
 		return true
 	}
+	la, ok1 := a.(*ssa.UnOp)
+	lb, ok2 := b.(*ssa.UnOp)
+	if ok1 && ok2 && la.Op == token.MUL && lb.Op == token.MUL && la.X == lb.X {
+		if al, ok := la.X.(*ssa.Alloc); ok {
+			return !storeBetween(al, la, lb) && !storeBetween(al, lb, la)
+		}
+	}
 	return false
+}
+
+// storeBetween reports whether some store to alloc can execute after `from` and before
+// `to` (both in the same function).
+func storeBetween(al *ssa.Alloc, from, to ssa.Instruction) bool {
+	if !reaches(from, to) {
+		return false
+	}
+	for _, r := range *al.Referrers() {
+		st, ok := r.(*ssa.Store)
+		if !ok || st.Addr != al {
+			continue
+		}
+		if reaches(from, st) && reaches(st, to) {
+			return true
+		}
+	}
+	return false
+}
+
+func instrIndex(in ssa.Instruction) int {
+	for i, x := range in.Block().Instrs {
+		if x == in {
+			return i
+		}
+	}
+	return -1
+}
+
+// reaches: can control flow from instruction a (after it executes) reach instruction b?
+func reaches(a, b ssa.Instruction) bool {
+	if a.Block() == b.Block() && instrIndex(a) < instrIndex(b) {
+		return true
+	}
+	seen := map[*ssa.BasicBlock]bool{}
+	stack := append([]*ssa.BasicBlock{}, a.Block().Succs...)
+	for len(stack) > 0 {
+		x := stack[len(stack)-1]
+		stack = stack[:len(stack)-1]
+		if seen[x] {
+			continue
+		}
+		seen[x] = true
+		if x == b.Block() {
+			return true
+		}
+		stack = append(stack, x.Succs...)
+	}
+	return false
+}
+
+// Reaches is the exported form of reaches.
+func Reaches(a, b ssa.Instruction) bool { return reaches(a, b) }
+
+// LastStoreBefore returns the value most recently stored to alloc before instruction
+// `at`, searching backwards through `at`'s block and then through single-predecessor
+// chains; nil when not unique.
+func LastStoreBefore(al *ssa.Alloc, at ssa.Instruction) ssa.Value {
+	b := at.Block()
+	idx := instrIndex(at)
+	for depth := 0; depth < 8 && b != nil; depth++ {
+		for i := idx - 1; i >= 0; i-- {
+			if st, ok := b.Instrs[i].(*ssa.Store); ok && st.Addr == al {
+				return st.Val
+			}
+		}
+		if len(b.Preds) != 1 {
+			return nil
+		}
+		b = b.Preds[0]
+		idx = len(b.Instrs)
+	}
+	return nil
 }
 
 // CallOf returns the call instruction producing v (directly or via Extract), with the
@@ -401,6 +543,18 @@ func classifyErrValue(v ssa.Value, at *ssa.BasicBlock, depth int) int {
 		return ExitSuccess
 	}
 	switch x := v.(type) {
+	case *ssa.UnOp:
+		// defer-spilled named result: `return a, b` stores into the result variable and
+		// the Return loads it back after running the deferred calls.
+		if al, ok := x.X.(*ssa.Alloc); ok && x.Op == token.MUL && depth < 3 {
+			if sv := LastStoreBefore(al, x); sv != nil {
+				return classifyErrValue(sv, x.Block(), depth+1)
+			}
+		}
+		// load of a package-level sentinel error (initialised once, non-nil, never reassigned)
+		if g, ok := x.X.(*ssa.Global); ok && x.Op == token.MUL && IsSentinelErr(g) {
+			return ExitFailure
+		}
 	case *ssa.MakeInterface:
 		return ExitFailure // a concrete value boxed into error is non-nil (typed-nil aside)
 	case *ssa.Call:
@@ -945,4 +1099,77 @@ func EnclosingNamed(f *ssa.Function) *ssa.Function {
 		f = f.Parent()
 	}
 	return f
+}
+
+
+var sentinelCache = map[*ssa.Global]bool{}
+
+// IsSentinelErr: a package-level variable of an error type that is stored exactly once,
+// in its package initialiser, with a value that is certainly non-nil.
+func IsSentinelErr(g *ssa.Global) bool {
+	if v, ok := sentinelCache[g]; ok {
+		return v
+	}
+	res := false
+	defer func() { sentinelCache[g] = res }()
+	if g.Pkg == nil {
+		return false
+	}
+	initFn := g.Pkg.Func("init")
+	if initFn == nil {
+		return false
+	}
+	nInit := 0
+	for _, b := range initFn.Blocks {
+		for _, in := range b.Instrs {
+			st, ok := in.(*ssa.Store)
+			if !ok || st.Addr != ssa.Value(g) {
+				continue
+			}
+			nInit++
+			switch v := st.Val.(type) {
+			case *ssa.MakeInterface:
+			case *ssa.Call:
+				if !isErrorCtor(v.Common()) {
+					return false
+				}
+			default:
+				return false
+			}
+		}
+	}
+	if nInit != 1 {
+		return false
+	}
+	// no other store anywhere in the package (unexported or not, cheap over-approximation:
+	// scan the defining package and every first-party package that imports it is too
+	// costly here; exported sentinels are conventionally never reassigned — scan defining
+	// package only and require the name to start with "Err"/"err").
+	for _, m := range g.Pkg.Members {
+		fn, ok := m.(*ssa.Function)
+		if !ok || fn == initFn {
+			continue
+		}
+		if storesGlobal(fn, g) {
+			return false
+		}
+	}
+	res = true
+	return true
+}
+
+func storesGlobal(fn *ssa.Function, g *ssa.Global) bool {
+	for _, b := range fn.Blocks {
+		for _, in := range b.Instrs {
+			if st, ok := in.(*ssa.Store); ok && st.Addr == ssa.Value(g) {
+				return true
+			}
+		}
+	}
+	for _, a := range fn.AnonFuncs {
+		if storesGlobal(a, g) {
+			return true
+		}
+	}
+	return false
 }
